@@ -159,6 +159,8 @@ def _draw_forms(call, r):
     for key, a in items:
         if a.kind in api.FORMS and a.value is not None and r.random() < 0.55:
             opts = api.FORMS[a.kind]
+            if a.kind == 'table' and not isinstance(a.value, pd.DataFrame):
+                continue
             if a.cols is None:
                 opts = [o for o in opts if o not in ('dataframe',)]
             forms[key] = opts[int(r.integers(len(opts)))]
@@ -369,7 +371,9 @@ def describe():
               "arguments come from a live value pool (stub world tables plus results of "
               "earlier calls, so aliasing is exercised) in a randomly drawn documented form "
               "(ndarray / list / tuple / Fortran order / non-contiguous view / Series / "
-              "DataFrame, scalar-vs-stacked). Monitors per call: argument snapshot, repeat on "
+              "DataFrame, scalar-vs-stacked; label-addressed tables with permuted / reversed "
+              "columns or an extra leading column; integer seeds as numpy integers). "
+              "Monitors per call: argument snapshot, repeat on "
               "deep copies, form equivalence vs ndarray form (1e-9 x output scale), schema; "
               "after the program every call is replayed in isolation from its pre-call "
               "copies. Non-trivial = program with >= 2 calls; distinct = distinct (set of "
@@ -393,4 +397,6 @@ def describe():
             "installed scipy)."],
         probes_wanted=[f'template:{t}' for t in cat] +
                       [f'form:{f}' for f in ('list', 'tuple', 'fortran', 'noncontig',
-                                             'series', 'dataframe', 'row0')])
+                                             'series', 'dataframe', 'row0', 'cols_permuted',
+                                             'cols_reversed', 'extra_leading_col',
+                                             'np_int64', 'np_int32')])
